@@ -7,7 +7,7 @@
 (* the format transcription (CellCodec, RowsFormat, EventFormat, JsonSem,  *)
 (* GTID modules).  A failed monitor prints <<"MONFAIL", json>>.            *)
 (***************************************************************************)
-EXTENDS JsonSem, Json, GTIDText
+EXTENDS JsonSem, Json, GTIDText, EventFormat
 
 G == INSTANCE GTIDSet WITH GDefects <- {}
 Ma == INSTANCE MariaGTID WITH MDefects <- {}
@@ -347,6 +347,31 @@ MonTxJson(e) ==
            <<te.sql = <<>> => (oe.hasRows /\ RowsOK(oe.vals, te.vals) /\ RowsOK(oe.ids, te.ids)), "columns: name / absent flag / NULL vs empty / data">>})
          : j \in 1..Min2(Len(o.evs), Len(t.evs))}
 
+(***************************************************************************)
+(* HARNESS.writer: the bytes the harness fed to the real decoders are the   *)
+(* specification's encoding of the abstract event (EventFormat).  A failure *)
+(* here is a defect of the harness, never of the library: the driver exits 2.*)
+(***************************************************************************)
+W(e, ok) == IF ok THEN {} ELSE {F("HARNESS.writer", e, "event bytes are not the specification's encoding of the abstract event")}
+Crc(e) == IF "cksum" \in DOMAIN e THEN e.cksum ELSE e.alg = 1
+
+WriterOK(e) ==
+  CASE e.fn = "rows" ->
+         W(e, IsEvent(e.evbytes, <<55, 55>>, RowsType(e.kind, e.v2), <<49>>, <<49, 48, 48, 48>>, 0,
+                      RowsBody(e.tidw, e.tidtext, e.v2, e.extrab, Len(e.cols), e.kind, e.pb, e.pa, e.rows), e.cksum))
+    [] e.fn = "tablemap" ->
+         W(e, IsEvent(e.evbytes, <<53>>, 19, <<51>>, <<56, 48, 48>>, 0,
+                      TableMapBody(e.tidw, e.tidtext, e.db, e.name, e.cols, e.tail), e.cksum))
+    [] e.fn = "ev.rotate" -> W(e, IsEvent(e.obs.raw, e.tst, 4, e.sidt, e.npt, e.flags, RotateBody(e.pos, e.file), Crc(e)))
+    [] e.fn = "ev.xid" -> W(e, IsEvent(e.obs.raw, e.tst, 16, e.sidt, e.npt, e.flags, XidBody(e.xid8), Crc(e)))
+    [] e.fn = "ev.intvar" -> W(e, IsEvent(e.obs.raw, e.tst, 5, e.sidt, e.npt, e.flags, IntVarBody(e.kind, e.value), Crc(e)))
+    [] e.fn = "ev.rand" -> W(e, IsEvent(e.obs.raw, e.tst, 13, e.sidt, e.npt, e.flags, RandBody(e.s1, e.s2), Crc(e)))
+    [] e.fn = "ev.query" ->
+         W(e, IsEvent(e.obs.raw, e.tst, 2, e.sidt, e.npt, e.flags, QueryBody(e.thread4, e.exec4, e.err2, e.vars, e.db, e.sql), Crc(e)))
+    [] e.fn = "ev.fde" ->
+         W(e, IsEvent(e.raw, e.tst, 15, e.sidt, e.npt, e.flags, FdeBody(e.srvver, e.create4, e.sizes, e.alg), TRUE))
+    [] OTHER -> {}
+
 Mon(e) ==
   CASE e.fn = "rows" -> MonRows(e)
     [] e.fn = "txjson" -> MonTxJson(e)
@@ -375,7 +400,7 @@ TNext ==
   /\ l' = l + 1
   /\ LET e == Trace[l] IN
        IF e.ev = "case"
-       THEN LET bad == Mon(e) IN
+       THEN LET bad == Mon(e) \cup WriterOK(e) IN
               /\ ncase' = ncase + 1
               /\ nviol' = nviol + Cardinality(bad)
               /\ tn' = IF e.fn = "txjson" /\ e.obs.wellformed /\ ~e.obs.err THEN tn \cup TypePairs(e) ELSE tn
